@@ -97,7 +97,9 @@ TIE = {
            'removeVariable_tie); plus the annotation move inside the _add_connections loop body (connLoop_body_tie).',
     'C14': 'Tied (Tie/Transpile.lean): a text-level translation of Transpiler._cn_handler = C14.cnPlain / cnENotation / '
            'sourceBits: the format string \'%se%d\' flows from the source and there is exactly one float() of the '
-           'concatenated text (cnHandlerText_plain_tie, cnHandlerText_enotation_tie, cn_sourceBits_tie).',
+           'concatenated text (cnHandlerText_plain_tie, cnHandlerText_enotation_tie, cn_sourceBits_tie). The check also builds '
+           'the Units ties: get_conversion_factor\'s "within isclose of 1 => exactly 1" rule decides whether a number passing a '
+           'unit conversion between equal units stays bit-identical.',
     'C15': 'Tied: transform_constants iterates the ordered variable list (transformConstants_tie breaks on set()), the '
            '_add_connections loop body (connLoop_body_tie), Model.graph built independently of leftover types and of the '
            'order in which the variable list is visited (graph_independent).',
